@@ -25,7 +25,7 @@ type c16 struct{}
 func (c16) ID() string    { return "C16" }
 func (c16) Level() string { return "model_checking" }
 func (c16) Rule() string {
-	return "cases = (a) every ordered pair (thorough: also triples) of data-independent tasks from a menu chosen to collide on anything global - Solve with the learned-clause trace observed through the certificate channel on conflict-producing formulas, CountModels, Optimal, maxsat.Solve, explain.MUS, explain.UnsatSubset, bf.Solve - run as concurrent threads; (b) single calls that start goroutines internally (UnsatSubset, Solver.Optimal and Enumerate with a consumer, WCNF Optimal with its forwarder). ALL schedules with at most 2 preemptions (3 thorough) are enumerated under the cooperative scheduler (for the task pairs, whose threads block on every certificate line, additionally at most 5 (7) non-default choices in total, free switches at blocking points included); scheduling points: thread start/exit, goroutine creation, every channel operation, every access to a package-level variable that is written anywhere in its package or to a local captured by a go-function (found by the rewriter from /repo's working tree) and every statement of the functions that touch one. Oracle on every schedule: each thread's complete observation equals its observation when run alone; no happens-before race on the instrumented variables; no deadlock, send on closed, double close or panic. (c) the same bodies run free under the Go race detector (cmd/mcrace; sampling, reported separately in the evidence). Non-trivial = the case has at least 2 schedules."
+	return "cases = (a) every ordered pair (thorough: also triples) of data-independent tasks from a menu chosen to collide on anything global - Solve with the learned-clause trace observed through the certificate channel on conflict-producing formulas, CountModels, Optimal, maxsat.Solve, explain.MUS, explain.UnsatSubset, bf.Solve - run as concurrent threads; (b) single calls that start goroutines internally (UnsatSubset, Solver.Optimal and Enumerate with a consumer, WCNF Optimal with its forwarder). ALL schedules with at most 2 preemptions (3 thorough) are enumerated under the cooperative scheduler (for the task pairs, whose threads block on every certificate line, additionally at most 5 (7) non-default choices in total, free switches at blocking points included); scheduling points: thread start/exit, goroutine creation, every channel operation, every access to a package-level variable that is written anywhere in its package or to a local captured by a go-function (found by the rewriter from /repo's working tree) and every statement of the functions that touch one. Oracle on every schedule: each thread's semantic observation (verdict, validity of its model, count, optimum, validity/minimality of its MUS) equals its observation when run alone (the exact model, learned-clause trace and statistics are compared too, for information only); no happens-before race on the instrumented variables; no deadlock, send on closed, double close or panic. (c) the same bodies run free under the Go race detector (cmd/mcrace; sampling, reported separately in the evidence). Non-trivial = the case has at least 2 schedules."
 }
 func (c16) Assumptions() []string {
 	return []string{"the exhaustive part sees races on instrumented variables only (package-level variables and go-captured locals); races on other memory are left to the differential oracle and to the free-running race-detector pass, which samples schedules", "Verbose output is off (the statement excludes it)"}
@@ -136,16 +136,17 @@ func (c16) Exec(cc core.Case, r *core.Rec) []core.Failure {
 	}
 	// solo observations (natively, no scheduler installed)
 	solo := make([]string, len(c.Tasks))
+	soloRaw := make([]string, len(c.Tasks))
 	for i, t := range c.Tasks {
-		solo[i] = t.Run()
+		solo[i], soloRaw[i] = t.RunRaw()
 	}
-	var got []string
+	var got, gotRaw []string
 	DevBound = 5 // threads that block on every certificate line: bound free switches as well
 	if r.Tier == "thorough" {
 		DevBound = 7
 	}
 	defer func() { DevBound = 0 }()
-	stats := Explore(bound, 2000000, r, r.ReplayChoices, func() { got = conc.RunTogether(c.Tasks) }, func(e Exec) bool {
+	stats := Explore(bound, 2000000, r, r.ReplayChoices, func() { got, gotRaw = conc.RunTogether(c.Tasks) }, func(e Exec) bool {
 		kinds := ""
 		for _, t := range c.Tasks {
 			kinds += t.Kind + "+"
@@ -163,8 +164,16 @@ func (c16) Exec(cc core.Case, r *core.Rec) []core.Failure {
 				}
 			}
 		}
+		for i := range c.Tasks {
+			if i < len(gotRaw) && gotRaw[i] != soloRaw[i] {
+				// exact model / learned-clause trace / statistics differ although the semantic
+				// observation is the same: not required by the statement, counted for information
+				r.Count("raw_observation_differs_from_solo_run", 1)
+				break
+			}
+		}
 		r.Outcome(kinds)
-		got = nil
+		got, gotRaw = nil, nil
 		return len(fails) == 0
 	})
 	countExplore(r, stats)
